@@ -143,7 +143,8 @@ structure DSt where
 
 def cfgOfSource : Config :=
   { ioFlagMask := Gen.EvLoop.ioFlagMask, timersPop := Gen.EvLoop.timersPop, errnoSaved := Gen.EvLoop.errnoSaved,
-    pendingInit := Gen.EvLoop.pendingInit, reventsCleared := Gen.EvLoop.reventsCleared }
+    pendingInit := Gen.EvLoop.pendingInit, reventsCleared := Gen.EvLoop.reventsCleared,
+    invokeTypeSaved := Gen.EvLoop.invokeTypeSaved }
 
 def step (d : DSt) (ts : List String) (impl : String) : DSt × String × String :=
   let op := parseOp ts
